@@ -1,7 +1,7 @@
 (* C05 -- Deduplication answers are truthful.  Statements only. *)
 From Coq Require Import NArith Bool List.
 Import ListNotations.
-From XetModel Require Import Base.Codec Gen.ShardLayout Model.Merkle Model.Shard Proofs.CodecProofs Proofs.ShardProofs Proofs.DedupProofs.
+From XetModel Require Import Base.Codec Gen.ShardLayout Model.Merkle Model.Shard Proofs.CodecProofs Proofs.ShardProofs Proofs.DedupProofs Model.Dedup Proofs.PipelineProofs Proofs.ResolveProofs Proofs.BytesProofs.
 Open Scope N_scope.
 
 (* "truthful" (Proofs/DedupProofs.v): 1 <= n <= |qs|; the segment names xorb c, spans [a, a+n) within c's chunks;
@@ -31,6 +31,21 @@ Definition ex_c : cas_info := mkCI (repeat 9 32%nat) 0 300 300
 Example C05_nonvacuous : exists n s, direct_rec zero_hash ex_c [repeat 2 32%nat; repeat 3 32%nat; repeat 7 32%nat] 1 = Some (n, s) /\ n = 2 /\ sg_bytes s = 200.
 Proof. eexists. eexists. vm_compute. repeat split. Qed.
 
+(* the deduper's own lookup against the pending xorb (dedup_query_against_local_data): an answer (n, segment) names the
+   pending data under the zero hash; its chunk range holds exactly the first n incoming chunks, and its byte count is the
+   sum of their lengths.  Needs the deduper's invariant (C01: every lookup entry points at the chunk it names -- the
+   table is cleared with every cut) and distinct 64-bit keys of distinct chunks. *)
+Theorem C05_local_lookup_truthful : forall F U, StoreOk F U -> forall f fed cs n s,
+  FInv F U f fed -> (forall c, In c cs -> In c U) -> local_query f (map fst cs) = Some (n, s) ->
+  resolve_seg (pend (f_new f) :: F) s = Some (firstn (N.to_nat n) cs) /\ sg_bytes s = sum_lens (firstn (N.to_nat n) cs) /\
+  sg_cas s = zero_hash /\ 1 <= n /\ n <= N.of_nat (length cs).
+Proof.
+  intros F U HS f fed cs n s H HU Q. destruct (local_query_ok F U (so_keys F U HS) f fed cs n s H HU Q) as (A & _ & C & D).
+  split; [exact A|]. split; [exact (local_query_bytes F U HS f fed cs n s H HU Q)|]. split; [|split; assumption].
+  unfold local_query in Q. destruct cs as [|c r]; [discriminate|]. cbn [map] in Q. destruct (lk _ _); [|discriminate]. injection Q as _ <-. reflexivity.
+Qed.
+
 Print Assumptions C05_direct_truthful.
 Print Assumptions C05_direct_bytes_is_rec.
 Print Assumptions C05_inmem_truthful.
+Print Assumptions C05_local_lookup_truthful.
